@@ -8,8 +8,8 @@
     [cmd_ok dw c]: the arguments are built ([arg_ok]: the number of values is resolved, a positional takes
     a value and has an index) and every rendered left column is at most 65 523 columns wide (observation N:
     core::fmt limits run-time widths to u16; the bound is 65 535 - 12). *)
-From ClapModel Require Import Base.Bytes Base.Machine Parse.Cmd Parse.Build Parse.Errors Parse.Parser.
-From ClapModel Require Import Gen.HelpTables Help.UsageModel Help.HelpModel Help.HelpProofs Help.HelpLevel Help.HelpSpecVals.
+From ClapModel Require Import Base.Bytes Base.Machine Parse.Cmd Parse.Build Parse.Valid Parse.Errors Parse.Parser.
+From ClapModel Require Import Gen.HelpTables Help.UsageModel Help.HelpModel Help.HelpProofs Help.HelpLevel Help.HelpSpecVals Help.HelpDispatch.
 From RecordUpdate Require Import RecordSet.
 Import RecordSetNotations.
 Open Scope N_scope.
@@ -179,3 +179,42 @@ Theorem C12_default_names_hidden_pv :
     /\ spec_vals false a = s_default_open ++ pv_name pv ++ [93; 32] ++ s_pv_open ++ [97; 93].
 Proof. exact default_names_hidden_pv. Qed.
 Print Assumptions C12_default_names_hidden_pv.
+
+(** ---- round 2: the help flag yields the help of the level it was given at (parser model) ---- *)
+
+(** [bin name_1 .. name_k --help anything..]: when the names form a chain of subcommand names / aliases
+    ([help_chain]: UTF-8 names, no inference / ignore_errors on the way, not the generated [help] subcommand,
+    aliases resolve consistently) and [--help] is a help flag of the level [lv] the chain ends at
+    ([long_help_at]), [try_get_matches_from] returns the DisplayHelp error of [lv] -- the level
+    [p_level_walk] reaches -- in the mode the flag's action asks for, whatever follows the flag *)
+Theorem C12_help_flag_long_level : forall c0 bin names rest lv ul,
+  is_set s_no_binary_name c0 = false -> c_bin_name c0 <> None ->
+  valid c0 = true -> help_chain (build_self c0) names = Some lv -> long_help_at lv ul = true ->
+  parse_top c0 (bin :: names ++ tok_help_long :: rest) = OErr (help_err lv ul)
+  /\ p_level_walk (build_self c0) names = Some lv
+  /\ e_kind (help_err lv ul) = EDisplayHelp /\ e_cmd (help_err lv ul) = opt_default [] (c_about lv)
+  /\ e_long (help_err lv ul) = ul.
+Proof. exact help_flag_long_level. Qed.
+Print Assumptions C12_help_flag_long_level.
+
+(** the same for [-h] *)
+Theorem C12_help_flag_short_level : forall c0 bin names rest lv ul,
+  is_set s_no_binary_name c0 = false -> c_bin_name c0 <> None ->
+  valid c0 = true -> help_chain (build_self c0) names = Some lv -> short_help_at lv ul = true ->
+  parse_top c0 (bin :: names ++ tok_help_short :: rest) = OErr (help_err lv ul)
+  /\ p_level_walk (build_self c0) names = Some lv
+  /\ e_kind (help_err lv ul) = EDisplayHelp /\ e_cmd (help_err lv ul) = opt_default [] (c_about lv)
+  /\ e_long (help_err lv ul) = ul.
+Proof. exact help_flag_short_level. Qed.
+Print Assumptions C12_help_flag_short_level.
+
+(** non-vacuity: a three-level command, a chain through an alias, [--help] followed by an unknown flag *)
+Theorem C12_help_chain_satisfiable :
+  is_set s_no_binary_name hd_root = false /\ c_bin_name hd_root <> None /\ valid hd_root = true
+  /\ exists lv, help_chain (build_self hd_root) hd_names = Some lv /\ c_about lv = Some [116; 45; 97; 98]
+                /\ long_help_at lv true = true /\ short_help_at lv false = true
+                /\ parse_top hd_root ([112] :: hd_names ++ tok_help_long :: [[45; 45; 98; 111; 103; 117; 115]])
+                   = OErr (help_err lv true)
+                /\ parse_top hd_root ([112] :: hd_names ++ tok_help_short :: []) = OErr (help_err lv false).
+Proof. exact hd_hyps. Qed.
+Print Assumptions C12_help_chain_satisfiable.
